@@ -80,6 +80,8 @@ def excName : Exc → String
   | .indexError => "IndexError"
   | .valueError => "ValueError"
   | .notImplementedError => "NotImplementedError"
+  | .runtimeError => "RuntimeError"
+  | .noSuchProcess => "NoSuchProcess"
 
 def jRes (f : α → Json) : Res α → Json
   | .ok v => jObj [("ok", f v)]
